@@ -32,7 +32,7 @@ ALPHABET = set("0123456789:TZW/P+-., YMDHS")
 SEEDS = ["2016-10-06T12:34:56.123456+05:30", "20161006T123456", "2016-10-06", "2012-W05-5", "2012W055", "2012-007", "2012007", "12:34:56.5", "T1234",
          "2016-10-06 12:34:56", "P1Y2M3DT4H5M6.5S", "P3W", "PT1.5H", "2007-03-01T13:00:00Z/2008-05-11T15:30:00Z", "2008-05-11T15:30:00Z/P1Y2M10DT2H30M",
          "P1Y2M10DT2H30M/2008-05-11T15:30:00Z", "2016-10", "20161001T14", "2016-10-06T12:34:56Z", "2016-10-06T12:34:56,5-0330", "2016-280T12", "2016-10-06/2016-10-09",
-         "T12:34:56+02:00", "1583-01-01", "9999-12-31T23:59:59.999999", "2016-10-06 12:34:56.789", "12:34", "2016-10-06 12:34"]
+         "T12:34:56+02:00", "1583-01-01", "9999-12-31T23:59:59.999999", "2016-10-06 12:34:56.789", "12:34", "2016-10-06 12:34", "2008-05-11T15:30:00Z/PT0S", "P0D/2008-05-11T15:30:00Z", "PT0S"]
 SRC = os.path.realpath(os.path.join(env.REPO, "src", "pendulum"))
 DUR_RE = re.compile(r"^P[0-9YMWDTHS.,]+\Z")
 
@@ -171,6 +171,9 @@ class Mutated(Sub):
     shards = {"quick": 6, "thorough": 16}
     rule = "every seed form of C07/C13 with 0-2 edits (substitute, insert, delete, truncate, concatenate, foreign characters, long digit runs) x options; non-trivial: edited string within the ISO alphabet and not identical to a seed; distinct by (string, options)"
 
+    def describe(self, case):
+        return {"string": apply_edits(SEEDS[case["seed"]], [tuple(e) for e in case["edits"]]), "seed_form": SEEDS[case["seed"]], "options": case["opts"]}
+
     def strategy(self, ctx):
         return st.fixed_dictionaries({"seed": st.integers(0, len(SEEDS) - 1), "edits": st.lists(edit, min_size=0, max_size=2), "opts": options})
 
@@ -193,6 +196,11 @@ class SingleEdits(Sub):
     rule = ("every seed form x every position x {substitute, insert} x every character of the ISO alphabet and of a foreign set (ASCII punctuation, lower-case "
             "designators, control characters, non-ASCII digits), plus every single deletion and every truncation; options {} (thorough: also exact, non-strict, tz); "
             "non-trivial: the edited string stays inside the ISO alphabet")
+
+    def describe(self, case):
+        s0 = SEEDS[case["seed"]]
+        pos, ch, kind = case["pos"], case["ch"], case["kind"]
+        return {"seed_form": s0, "string": {"sub": s0[:pos] + ch + s0[pos + 1:], "ins": s0[:pos] + ch + s0[pos:], "del": s0[:pos] + s0[pos + 1:], "trunc": s0[:pos]}[kind]}
 
     def exhaustive(self, tier):
         return True
